@@ -23,25 +23,28 @@ package mocktikv
 //@   opaque-callee CleanUp
 //@   ensures persisted: result == nil ==> batch.written
 
-// commitLock turns the lock into a write record at the commit timestamp and removes the lock: two records.
+// commitLock turns a prewrite lock into a write record at the commit timestamp and removes the lock: two records, one of
+// them data. A leftover pessimistic lock carries no write: committing it only removes the lock and changes no data (the
+// reference named by the property, TiKV).
 //@ func commitLock
 //@   prop C12
 //@   opaque-callee MarshalBinary mvccEncode
-//@   modifies leveldb.Batch.n of batch
-//@   ensures result == nil ==> batch.n == old(batch.n) + 2
-//@   ensures result != nil ==> batch.n == old(batch.n)
+//@   modifies leveldb.Batch.n of batch, leveldb.Batch.puts of batch
+//@   ensures prewritten: result == nil && lock.op != kvrpcpb.Op_PessimisticLock ==> batch.n == old(batch.n) + 2 && batch.puts == old(batch.puts) + 1
+//@   ensures leftover: result == nil && lock.op == kvrpcpb.Op_PessimisticLock ==> batch.n == old(batch.n) + 1 && batch.puts == old(batch.puts)
+//@   ensures failed: result != nil ==> batch.n == old(batch.n) && batch.puts == old(batch.puts)
 
 //@ func writeRollback
 //@   prop C12
 //@   opaque-callee MarshalBinary mvccEncode
-//@   modifies leveldb.Batch.n of batch
+//@   modifies leveldb.Batch.n of batch, leveldb.Batch.puts of batch
 //@   ensures result == nil ==> batch.n == old(batch.n) + 1
 //@   ensures result != nil ==> batch.n == old(batch.n)
 
 //@ func rollbackLock
 //@   prop C12
 //@   opaque-callee mvccEncode
-//@   modifies leveldb.Batch.n of batch
+//@   modifies leveldb.Batch.n of batch, leveldb.Batch.puts of batch
 //@   ensures result == nil ==> batch.n == old(batch.n) + 2
 //@   ensures result != nil ==> batch.n == old(batch.n)
 
@@ -50,17 +53,17 @@ package mocktikv
 //@ func commitKey
 //@   prop C12
 //@   opaque-callee Decode newIterator getTxnCommitInfo mvccEncode Release
-//@   modifies leveldb.Batch.n of batch
+//@   modifies leveldb.Batch.n of batch, leveldb.Batch.puts of batch
 //@   at call(commitLock) assert own: dec.lock.startTS == startTS && dec.lock.minCommitTS <= commitTS && arg_startTS == startTS && arg_commitTS == commitTS && arg_batch == batch
 //@   ensures committed: result == nil && batch.n == old(batch.n) ==> ok && c.valueType != typeRollback
-//@   ensures written: result == nil ==> batch.n == old(batch.n) || batch.n == old(batch.n) + 2
+//@   ensures written: result == nil ==> batch.n == old(batch.n) || batch.n == old(batch.n) + 2 || (batch.n == old(batch.n) + 1 && dec.lock.op == kvrpcpb.Op_PessimisticLock)
 
 // rollbackKey: only this transaction's own lock is removed; "done" without a new record means it is already rolled
 // back; "already committed" is answered only from a commit record; otherwise a rollback marker is added.
 //@ func rollbackKey
 //@   prop C12
 //@   opaque-callee Decode newIterator getTxnCommitInfo mvccEncode Release MarshalBinary Valid
-//@   modifies leveldb.Batch.n of batch
+//@   modifies leveldb.Batch.n of batch, leveldb.Batch.puts of batch
 //@   at call(rollbackLock) assert own: dec.lock.startTS == startTS && arg_startTS == startTS && arg_batch == batch
 //@   ensures rolledback: result == nil && batch.n == old(batch.n) ==> ok && c.valueType == typeRollback
 //@   ensures marker: result == nil ==> batch.n >= old(batch.n)
@@ -121,7 +124,7 @@ package mocktikv
 //@   prop C12
 //@   may-panic
 //@   opaque-callee newIterator Release checkConflictValue MarshalBinary mvccEncode
-//@   modifies leveldb.Batch.n of batch
+//@   modifies leveldb.Batch.n of batch, leveldb.Batch.puts of batch
 //@   at call(checkConflictValue) assert nolock: ok ==> arg_forUpdateTS == 18446744073709551615
 //@   at return assert foreign: ok && dec.lock.startTS != startTS ==> result != nil && batch.n == old(batch.n)
 //@   at return assert repeated: ok && dec.lock.startTS == startTS && dec.lock.op != kvrpcpb.Op_PessimisticLock ==> result == nil && batch.n == old(batch.n)
